@@ -84,6 +84,9 @@ def simpleTarget : E → Bool
 def mulOps : Tk → Option BinOp | .p .star => some .mul | .p .slash => some .div | .p .percent => some .rem | _ => none
 def addOps : Tk → Option BinOp | .p .plus => some .add | .p .minus => some .sub | _ => none
 def shiftOps : Tk → Option BinOp | .p .shl => some .shl | .p .shr => some .shr | .p .ushr => some .ushr | _ => none
+def relOps (ai : Bool) : Tk → Option BinOp
+  | .p .lt => some .lt | .p .le => some .le | .p .gt => some .gt | .p .ge => some .ge
+  | .p .kInstanceof => some .instanceof | .p .kIn => if ai then some .in_ else none | _ => none
 def eqOps : Tk → Option BinOp | .p .eq => some .eq | .p .ne => some .ne | .p .seq => some .seq | .p .sne => some .sne | _ => none
 def bandOps : Tk → Option BinOp | .p .amp => some .band | _ => none
 def bxorOps : Tk → Option BinOp | .p .caret => some .bxor | _ => none
@@ -103,7 +106,7 @@ def asgOps : Tk → Option AsgOp
   | .p .orA => some .bor | .p .xorA => some .bxor | .p .shlA => some .shl | .p .shrA => some .shr
   | .p .ushrA => some .ushr | _ => none
 
-/-- the loop shared by the ten left-associative levels (expression.go:633-653 and its nine copies, 973-992):
+/-- the loop shared by the eleven left-associative levels (expression.go:633-653 and its nine copies, 973-992):
     `for p.token ∈ ops { tkn := p.token; p.next(); left = &BinaryExpression{tkn, left, next()} }` -/
 def binLoop (ops : Tk → Option BinOp) (next : List Tok → R) : Nat → E → List Tok → R
   | 0, _, _ => none
@@ -227,20 +230,11 @@ def parseShift : Nat → List Tok → R
   | 0, _ => none
   | n+1, ts => (parseAdd n ts).bind fun p => binLoop shiftOps (parseAdd n) n p.1 p.2
 
-/-- parseRelationalExpression, expression.go:698-755: NOT a loop — the right operand is a recursive call,
-    made with allowIn = true -/
+/-- parseRelationalExpression, expression.go:698-749: the same loop as the other levels; `in` is an operator of the level
+    only when allowIn holds (expression.go:732) -/
 def parseRel : Nat → Bool → List Tok → R
   | 0, _, _ => none
-  | n+1, ai, ts =>
-    (parseShift n ts).bind fun p =>
-      match hd p.2 with
-      | .p .lt => (parseRel n true p.2.tail).map fun q => (.bin .lt p.1 q.1, q.2)
-      | .p .le => (parseRel n true p.2.tail).map fun q => (.bin .le p.1 q.1, q.2)
-      | .p .gt => (parseRel n true p.2.tail).map fun q => (.bin .gt p.1 q.1, q.2)
-      | .p .ge => (parseRel n true p.2.tail).map fun q => (.bin .ge p.1 q.1, q.2)
-      | .p .kInstanceof => (parseRel n true p.2.tail).map fun q => (.bin .instanceof p.1 q.1, q.2)
-      | .p .kIn => if ai then (parseRel n true p.2.tail).map fun q => (.bin .in_ p.1 q.1, q.2) else some p
-      | _ => some p
+  | n+1, ai, ts => (parseShift n ts).bind fun p => binLoop (relOps ai) (parseShift n) n p.1 p.2
 
 /-- parseEqualityExpression, expression.go:757 -/
 def parseEq : Nat → Bool → List Tok → R
@@ -272,14 +266,14 @@ def parseLor : Nat → Bool → List Tok → R
   | 0, _, _ => none
   | n+1, ai, ts => (parseLand n ai ts).bind fun p => binLoop lorOps (parseLand n ai) n p.1 p.2
 
-/-- parseConditionalExpression, expression.go:885-909: both branches are parseAssignmentExpression
-    under the CURRENT allowIn -/
+/-- parseConditionalExpression: the middle operand is parsed with allowIn = true (saved and restored around it),
+    the last one under the current allowIn -/
 def parseCond : Nat → Bool → List Tok → R
   | 0, _, _ => none
   | n+1, ai, ts =>
     (parseLor n ai ts).bind fun p =>
       if hd p.2 = .p .quest then
-        (parseAssign n ai p.2.tail).bind fun a =>
+        (parseAssign n true p.2.tail).bind fun a =>
           (expectP .colon a.2).bind fun r =>
             (parseAssign n ai r).map fun b => (.cond p.1 a.1 b.1, b.2)
       else some p
